@@ -6,6 +6,7 @@ import DswModel.Model.Biofilter
 import DswModel.Model.Capacity
 import DswModel.Py.Wire
 import DswModel.Gen.Operation
+import DswModel.Gen.Spiderweb
 /-!
 Line-protocol driver: one operation per input line, one canonical result line per operation.
 Imports only `DswModel.Model.*` (core Lean), so it links as a native executable; the definitions
@@ -23,7 +24,8 @@ def stepGen (name : String) (args : List String) : String :=
   match args.mapM Dsw.Py.parsePV with
   | none => "bad-arg"
   | some vs =>
-    match Dsw.Gen.dispatch_operation genFuel name vs with
+    match (Dsw.Gen.dispatch_operation genFuel name vs).orElse
+        (fun _ => Dsw.Gen.dispatch_spiderweb genFuel name vs) with
     | none => "bad-op"
     | some (.ok v) => "ok " ++ Dsw.Py.showPV v
     | some (.error e) => "err " ++ (match e with
